@@ -200,6 +200,12 @@ impl Client {
         src: EndpointId,
         data: Datagrams,
     ) -> Result<(), TrySendError<Packet>> {
+        if !data.is_forwardable() {
+            // This connection's actor would fail trying to send such a frame (empty or
+            // too large): drop it, or any sender could take this connection down.
+            debug!("unforwardable packet, dropped");
+            return Ok(());
+        }
         self.packet_queue.try_send(Packet { src, data })
     }
 
